@@ -53,7 +53,7 @@ def run(ctx):
                 continue
             present = [unS(b[2]) for b in trees.bool_vars([ma]) if b[0] == 'ex' and b[1] == '0']
             E = [e for e in markers.EXTRAS if ctx.rng.random() < .35]
-            norm = lambda x: sess.ask(['name', S(x)])[5][1]
+            norm = lambda x: S(markers.pep_norm(x))
             En = [unS(norm(e)) for e in E]
             reg, r = sess.op('simpx', a, [S(e) for e in E])
             ctx.evaluations += 1
@@ -102,7 +102,7 @@ def run(ctx):
             if reg is None:
                 ctx.failure('with_extra_marker failed', {'marker': markers.describe(sess, a), 'extra': name})
                 continue
-            nn = sess.ask(['name', S(name)])[5][1]
+            nn = S(markers.pep_norm(name))
             x, _ = sess.parse("extra == '%s'" % name)
             y, _ = sess.op('and', a, x)
             rel = sess.ask(['rel', str(reg), str(y)])
